@@ -4,6 +4,7 @@ import DuneVerif.Proofs.C11.SLList
 import DuneVerif.Proofs.C11.ReservedVector
 import DuneVerif.Proofs.C11.BitSetVector
 import DuneVerif.Proofs.C11.Lru
+import DuneVerif.Proofs.C11.GenTie
 /-!
 # C11 — containers behave as their abstract sequence / map under every operation history
 
@@ -638,5 +639,233 @@ example : SL.items (SL.copyConv (fun x : Int => x * 2) (SL.run ⟨SL.empty, none
   decide
 
 end SLList
+
+/-! ## Round four: the theorems re-stated through `Gen/C11.lean`
+
+`DV.C11.Gen.*` is regenerated from dune/common/arraylist.hh and dune/common/bitsetvector.hh on every run
+(tools/translators/tr_c11.py: the index formulas, conditions, loop bounds and member updates of the straight-line
+member functions, obtained by symbolic execution of their statements in source order).  The theorems below say that
+each model operation *is* the state transformer the current source spells out, and re-derive the central refinement
+facts for the generated formulas - so they are re-checked against what the code says now. -/
+section Generated
+variable {α : Type} {N : Nat}
+
+/-- the model's `chunkSize_`, absolute-index, begin/end and size formulas are the ones in the source (both constnesses) -/
+theorem gen_al_access_tied (n : Int) (s : AL.State α) (i : Nat) :
+    Gen.chunkSize n = AL.chunkSize n ∧
+      AL.get N s i = GenTie.readVia s.chunks
+        (Gen.alElemChunk N (Gen.alIndexArg N s.start s.size s.capacity i))
+        (Gen.alElemOffset N (Gen.alIndexArg N s.start s.size s.capacity i)) ∧
+      AL.get N s i = GenTie.readVia s.chunks
+        (Gen.alElemChunkC N (Gen.alIndexArgC N s.start s.size s.capacity i))
+        (Gen.alElemOffsetC N (Gen.alIndexArgC N s.start s.size s.capacity i)) ∧
+      AL.beginPos s = Gen.alBegin N s.start s.size s.capacity ∧ AL.beginPos s = Gen.alBeginC N s.start s.size s.capacity ∧
+      AL.endPos s = Gen.alEnd N s.start s.size s.capacity ∧ AL.endPos s = Gen.alEndC N s.start s.size s.capacity ∧
+      s.size = Gen.alSize N s.start s.size s.capacity := by
+  simp only [GenTie.chunkSize, GenTie.alElemChunk, GenTie.alElemOffset, GenTie.alElemChunkC, GenTie.alElemOffsetC,
+    GenTie.alIndexArg, GenTie.alIndexArgC, GenTie.alBegin, GenTie.alBeginC, GenTie.alEnd, GenTie.alEndC, GenTie.alSize]
+  all_goals repeat' apply And.intro
+  all_goals first | rfl | trivial
+
+/-- random access as the source spells it (`chunks_[(start_+i)/chunkSize_]->operator[]((start_+i)%chunkSize_)`, read
+    through the generated formulas, mutable and const overload) returns the `i`-th element of the abstract sequence,
+    and `size()` is its length -/
+theorem gen_al_get_refines (hN : 0 < N) {s : AL.State α} (h : AL.Inv N s) :
+    Gen.alSize N s.start s.size s.capacity = (AL.abs N s).length ∧
+    ∀ i, i < s.size →
+      GenTie.readVia s.chunks (Gen.alElemChunk N (Gen.alIndexArg N s.start s.size s.capacity i))
+        (Gen.alElemOffset N (Gen.alIndexArg N s.start s.size s.capacity i)) = (AL.abs N s)[i]? ∧
+      GenTie.readVia s.chunks (Gen.alElemChunkC N (Gen.alIndexArgC N s.start s.size s.capacity i))
+        (Gen.alElemOffsetC N (Gen.alIndexArgC N s.start s.size s.capacity i)) = (AL.abs N s)[i]? ∧
+      ((AL.abs N s)[i]?).isSome := by
+  have hg := al_get_refines hN h
+  refine ⟨by rw [GenTie.alSize]; exact hg.1.symm, fun i hi => ?_⟩
+  have h1 := (gen_al_access_tied (N := N) 0 s i).2.1
+  have h2 := (gen_al_access_tied (N := N) 0 s i).2.2.1
+  have h3 := hg.2 i hi
+  exact ⟨by rw [← h1]; exact h3.1, by rw [← h2]; exact h3.1, by rw [← h3.1]; exact h3.2⟩
+
+/-- iterators: `it[i]` / `*it` of an iterator `begin()+k` (both iterator classes, as generated) read the elements
+    `k+i` / `k` of the abstract sequence; `distanceTo`, `advance`, `++`, `--`, `equals` are position arithmetic -/
+theorem gen_al_iterator_refines (hN : 0 < N) {s : AL.State α} (h : AL.Inv N s) (k i : Nat) (hki : k + i < s.size) :
+    AL.elementAt N s (Gen.itElemArg N (Gen.alBegin N s.start s.size s.capacity + k) i) = (AL.abs N s)[k + i]? ∧
+      AL.elementAt N s (Gen.itElemArgC N (Gen.alBeginC N s.start s.size s.capacity + k) i) = (AL.abs N s)[k + i]? ∧
+      AL.elementAt N s (Gen.itDerefArg N (Gen.alBegin N s.start s.size s.capacity + (k + i))) = (AL.abs N s)[k + i]? ∧
+      AL.elementAt N s (Gen.itDerefArgC N (Gen.alBeginC N s.start s.size s.capacity + (k + i))) = (AL.abs N s)[k + i]? ∧
+      Gen.itDistanceTo (Gen.alBegin N s.start s.size s.capacity) (Gen.alEnd N s.start s.size s.capacity) = (AL.abs N s).length ∧
+      Gen.itDistanceToC (Gen.alBeginC N s.start s.size s.capacity) (Gen.alEndC N s.start s.size s.capacity) = (AL.abs N s).length := by
+  have hg := (al_get_refines hN h).2 (k + i) hki
+  have hl := (al_get_refines hN h).1
+  simp only [GenTie.itElemArg, GenTie.itElemArgC, GenTie.itDerefArg, GenTie.itDerefArgC, GenTie.alBegin, GenTie.alBeginC,
+    GenTie.alEnd, GenTie.alEndC, GenTie.itDistanceTo, GenTie.itDistanceToC, hl]
+  have e : AL.elementAt N s (s.start + k + i) = (AL.abs N s)[k + i]? := by
+    have := hg.1
+    unfold AL.get at this
+    rw [← Nat.add_assoc] at this
+    exact this
+  have e' : AL.elementAt N s (s.start + (k + i)) = (AL.abs N s)[k + i]? := by rw [← Nat.add_assoc]; exact e
+  refine ⟨e, e, e', e', ?_, ?_⟩ <;> omega
+
+theorem gen_al_iterator_moves (p o n : Int) (a b : Nat) :
+    Gen.itAdvance p n = p + n ∧ Gen.itAdvanceC p n = p + n ∧ Gen.itIncrement p = p + 1 ∧ Gen.itIncrementC p = p + 1 ∧
+      Gen.itDecrement p = p - 1 ∧ Gen.itDecrementC p = p - 1 ∧
+      Gen.itDistanceTo p o = o - p ∧ Gen.itDistanceToC p o = o - p ∧
+      (Gen.itEquals a b = true ↔ a = b) ∧ (Gen.itEqualsM a b = true ↔ a = b) ∧ (Gen.itEqualsC a b = true ↔ a = b) :=
+  ⟨GenTie.itAdvance p n, GenTie.itAdvanceC p n, GenTie.itIncrement p, GenTie.itIncrementC p, GenTie.itDecrement p,
+    GenTie.itDecrementC p, GenTie.itDistanceTo p o, GenTie.itDistanceToC p o, GenTie.itEquals a b, GenTie.itEqualsM a b,
+    GenTie.itEqualsC a b⟩
+
+/-- `push_back` of the model is the statement sequence of the source: grow iff the generated condition holds (by the
+    generated capacity increment), write at the generated index, generated new `size_`; hence (with
+    `al_push_back_refines`) the source's formulas append to the abstract sequence -/
+theorem gen_al_push_tied (d : α) (s : AL.State α) (x : α) :
+    AL.push N d s x =
+      (let s1 : AL.State α :=
+        if Gen.pushGrow N s.start s.size s.capacity = true then
+          { s with chunks := s.chunks ++ [some (List.replicate N d)],
+                   capacity := Gen.pushGrownCapacity N s.start s.size s.capacity }
+        else s
+       { chunks := AL.writeAt N s1.chunks (Gen.pushWriteIndex N s.start s.size s1.capacity) x,
+         capacity := s1.capacity,
+         size := Gen.pushSize N s.start s.size s1.capacity,
+         start := Gen.pushStart N s.start s.size s1.capacity }) := by
+  simp only [GenTie.pushGrow, GenTie.pushGrownCapacity, GenTie.pushWriteIndex, GenTie.pushSize, GenTie.pushStart]
+  unfold AL.push
+  by_cases hc : s.start + s.size = s.capacity <;> simp [hc]
+
+/-- `purge` of the model is the source's statement sequence (generated condition, copy range, resize count and member
+    updates); the copied range has exactly the length that is kept -/
+theorem gen_al_purge_tied (s : AL.State α) :
+    AL.purge N s =
+      (if Gen.purgeCond N s.start s.size s.capacity = true then
+        { chunks := (s.chunks.drop (Gen.purgeCopyFrom N s.start s.size s.capacity)).take (Gen.purgeResize N s.start s.size s.capacity),
+          capacity := Gen.purgeCapacity N s.start s.size s.capacity,
+          size := Gen.purgeSize N s.start s.size s.capacity,
+          start := Gen.purgeStart N s.start s.size s.capacity }
+      else s) ∧
+    Gen.purgeCopyTo N s.start s.size s.capacity =
+      Gen.purgeCopyFrom N s.start s.size s.capacity + Gen.purgeResize N s.start s.size s.capacity := by
+  simp only [GenTie.purgeCond, GenTie.purgeCopyFrom, GenTie.purgeResize, GenTie.purgeCapacity, GenTie.purgeSize,
+    GenTie.purgeStart, GenTie.purgeCopyTo]
+  all_goals repeat' apply And.intro
+  all_goals first | rfl | trivial
+
+/-- `eraseToHere` of the model is the source's statement sequence; for an iterator inside the window the generated
+    loop count frees exactly the chunks between the old and the new first chunk, and the generated new size is the
+    number of elements behind the iterator -/
+theorem gen_al_erase_tied (s : AL.State α) (p : Nat) :
+    AL.eraseToHere N s p =
+      { chunks := AL.freeLoop s.chunks (Gen.eraseLoopFirst N s.start s.size s.capacity p) (Gen.eraseLoopCount N s.start s.size s.capacity p),
+        capacity := Gen.eraseCapacity N s.start s.size s.capacity p,
+        size := Gen.eraseSize N s.start s.size s.capacity p,
+        start := Gen.eraseStart N s.start s.size s.capacity p } ∧
+    Gen.erasePos N s.start s.size s.capacity p = p + 1 ∧
+    (s.start ≤ p → p < s.start + s.size →
+      Gen.eraseLoopCount N s.start s.size s.capacity p = Gen.eraseLoopFirst N s.start s.size s.capacity p - s.start / N ∧
+      Gen.eraseSize N s.start s.size s.capacity p + (p + 1 - s.start) = s.size ∧
+      Gen.eraseStart N s.start s.size s.capacity p + Gen.eraseSize N s.start s.size s.capacity p = s.start + s.size) := by
+  simp only [GenTie.eraseLoopFirst, GenTie.eraseLoopCount, GenTie.eraseCapacity, GenTie.eraseSize, GenTie.eraseStart,
+    GenTie.erasePos]
+  refine ⟨rfl, trivial, fun h1 h2 => ⟨AL.freed_count (by omega), by omega, by omega⟩⟩
+
+theorem gen_al_clear_tied (s : AL.State α) :
+    AL.clear s = ⟨[], Gen.clearCapacity N s.start s.size s.capacity, Gen.clearSize N s.start s.size s.capacity,
+      Gen.clearStart N s.start s.size s.capacity⟩ := by
+  simp only [GenTie.clearCapacity, GenTie.clearSize, GenTie.clearStart]
+  all_goals first | rfl | trivial
+
+/-- BitSetVector: bit `(i,j)` lives at the generated address (both `getBit` overloads), distinct (block, bit) pairs
+    have distinct generated addresses, the constructors / `resize` allocate the generated number of bits, `size()` and
+    the `vector<bool>` constructor's rejection test are the generated ones -/
+theorem gen_bv_tied {B : Nat} (v : BV.Bits) (i j n : Nat) (b : Bool) :
+    BV.getBit B v i j = v.getD (Gen.bvAddr B i j) false ∧ BV.getBit B v i j = v.getD (Gen.bvAddrC B i j) false ∧
+      BV.setBit B v i j b = v.set (Gen.bvAddr B i j) b ∧
+      (∀ i' j', j < B → j' < B → Gen.bvAddr B i j = Gen.bvAddr B i' j' → i = i' ∧ j = j') ∧
+      (∀ i' j', j < B → j' < B → Gen.bvAddrC B i j = Gen.bvAddrC B i' j' → i = i' ∧ j = j') ∧
+      BV.mk B n = List.replicate (Gen.bvCtorLen B n) false ∧ BV.mk B n b = List.replicate (Gen.bvCtorLenV B n) b ∧
+      (BV.resize B v n b).length = Gen.bvResizeLen B n ∧
+      BV.size B v = Gen.bvSize B v.length ∧
+      BV.ofVector B v = (if Gen.bvCtorReject B v.length = true then none else some v) := by
+  simp only [GenTie.bvAddr, GenTie.bvAddrC, GenTie.bvCtorLen, GenTie.bvCtorLenV, GenTie.bvResizeLen, GenTie.bvSize,
+    GenTie.bvCtorReject]
+  refine ⟨rfl, rfl, rfl, fun i' j' h1 h2 h3 => bv_getBit_addr_inj h1 h2 h3, fun i' j' h1 h2 h3 => bv_getBit_addr_inj h1 h2 h3,
+    rfl, rfl, ?_, rfl, ?_⟩
+  · unfold BV.resize
+    split
+    · rw [List.length_take]; omega
+    · rw [List.length_append, List.length_replicate]; omega
+  · unfold BV.ofVector
+    by_cases h : v.length % B = 0 <;> simp [h]
+
+/-- non-vacuity: the generated formulas on the state of DESIGN.md section 6 #4 (two freed chunks, start inside a chunk) -/
+example : let s := AL.run 2 (0 : Int) AL.empty [.push 0, .push 1, .push 2, .push 3, .push 4, .push 5, .erase 2]
+    GenTie.readVia s.chunks (Gen.alElemChunk 2 (Gen.alIndexArg 2 s.start s.size s.capacity 1))
+      (Gen.alElemOffset 2 (Gen.alIndexArg 2 s.start s.size s.capacity 1)) = some 4 ∧
+    Gen.purgeCond 2 s.start s.size s.capacity = true ∧ Gen.purgeResize 2 s.start s.size s.capacity = 2 ∧
+    Gen.eraseLoopCount 2 0 6 6 2 = 1 ∧ Gen.eraseLoopFirst 2 0 6 6 2 = 1 ∧ Gen.pushGrow 2 s.start s.size s.capacity = true := by decide
+example : Gen.bvAddr 3 2 1 = 7 ∧ Gen.bvCtorReject 3 4 = true ∧ Gen.bvCtorReject 3 6 = false ∧ Gen.bvSize 3 7 = 2 ∧
+    Gen.itDistanceTo 3 7 = 4 ∧ Gen.itEqualsM 3 3 = true ∧ Gen.itEqualsM 3 4 = false ∧ Gen.chunkSize 0 = 1 ∧ Gen.chunkSize 7 = 7 := by decide
+
+/-- ReservedVector: every accessor reads the generated slot, every mutator writes the generated slot and sets the
+    generated size, all iterator ranges (`begin/end`, `cbegin/cend`, reversed) and the hashed range cover exactly the
+    slots `[0, size_)` of the abstract vector, and each `CHECKSIZE` asserts exactly the documented precondition -/
+theorem gen_rv_tied {n : Nat} (s : RV.State α) (i : Nat) (x : α) :
+    (RV.get s i = s.storage[Gen.rvIndex n s.size i]? ∧ RV.get s i = s.storage[Gen.rvIndexC n s.size i]? ∧
+      RV.front s = s.storage[Gen.rvFront n s.size]? ∧ RV.front s = s.storage[Gen.rvFrontC n s.size]? ∧
+      RV.back s = s.storage[Gen.rvBack n s.size]? ∧ RV.back s = s.storage[Gen.rvBackC n s.size]? ∧
+      RV.at? s i = (if Gen.rvAtThrow n s.size i = true then none else s.storage[Gen.rvAtIndex n s.size i]?) ∧
+      RV.at? s i = (if Gen.rvAtThrowC n s.size i = true then none else s.storage[Gen.rvAtIndexC n s.size i]?)) ∧
+    (RV.pushBack s x = ⟨s.storage.set (Gen.rvPushIndex n s.size) x, Gen.rvPushSize n s.size⟩ ∧
+      RV.pushBack s x = ⟨s.storage.set (Gen.rvPushRIndex n s.size) x, Gen.rvPushRSize n s.size⟩ ∧
+      RV.pushBack s x = ⟨s.storage.set (Gen.rvEmplaceIndex n s.size) x, Gen.rvEmplaceSize n s.size⟩ ∧
+      RV.popBack s = (if Gen.rvPopCond n s.size = true then ⟨s.storage, Gen.rvPopSize n s.size⟩ else s) ∧
+      RV.clear s = ⟨s.storage, Gen.rvClearSize n s.size⟩ ∧
+      RV.resize s i = ⟨s.storage, Gen.rvResizeSize n s.size i⟩ ∧
+      RV.set s i x = ⟨s.storage.set (Gen.rvIndex n s.size i) x, s.size⟩ ∧
+      RV.fill s x = ⟨RV.fillLoop s.storage x (Gen.rvFillBound n s.size), s.size⟩ ∧ Gen.rvFillIndex n s.size i = i) ∧
+    (RV.abs s = (s.storage.drop (Gen.rvBeginOff n s.size)).take (Gen.rvEndOff n s.size - Gen.rvBeginOff n s.size) ∧
+      RV.abs s = (s.storage.drop (Gen.rvBeginOffC n s.size)).take (Gen.rvEndOffC n s.size - Gen.rvBeginOffC n s.size) ∧
+      RV.abs s = (s.storage.drop (Gen.rvCbeginOff n s.size)).take (Gen.rvCendOff n s.size - Gen.rvCbeginOff n s.size) ∧
+      RV.abs s = (s.storage.drop (Gen.rvRendOff n s.size)).take (Gen.rvRbeginOff n s.size - Gen.rvRendOff n s.size) ∧
+      RV.abs s = (s.storage.drop (Gen.rvRendOffC n s.size)).take (Gen.rvRbeginOffC n s.size - Gen.rvRendOffC n s.size) ∧
+      RV.abs s = (s.storage.drop (Gen.rvCrendOff n s.size)).take (Gen.rvCrbeginOff n s.size - Gen.rvCrendOff n s.size) ∧
+      RV.abs s = s.storage.take (Gen.rvHashEnd n s.size) ∧
+      Gen.rvSize n s.size = s.size ∧ (Gen.rvEmpty n s.size = true ↔ s.size = 0) ∧
+      Gen.rvCapacity n s.size = n ∧ Gen.rvMaxSize n s.size = n) ∧
+    ((Gen.rvIndexCheck n s.size i = true ↔ i < s.size) ∧ (Gen.rvIndexCheckC n s.size i = true ↔ i < s.size) ∧
+      (Gen.rvFrontCheck n s.size = true ↔ 0 < s.size) ∧ (Gen.rvFrontCheckC n s.size = true ↔ 0 < s.size) ∧
+      (Gen.rvBackCheck n s.size = true ↔ 0 < s.size) ∧ (Gen.rvBackCheckC n s.size = true ↔ 0 < s.size) ∧
+      (Gen.rvPushCheck n s.size = true ↔ s.size < n) ∧ (Gen.rvPushRCheck n s.size = true ↔ s.size < n) ∧
+      (Gen.rvEmplaceCheck n s.size = true ↔ s.size < n) ∧ (Gen.rvResizeCheck n s.size i = true ↔ i ≤ n)) := by
+  refine ⟨?_, ?_, ?_, ?_⟩
+  · simp only [GenTie.rvIndex, GenTie.rvIndexC, GenTie.rvFront, GenTie.rvFrontC, GenTie.rvBack, GenTie.rvBackC,
+      GenTie.rvAtThrow, GenTie.rvAtThrowC, GenTie.rvAtIndex, GenTie.rvAtIndexC]
+    refine ⟨rfl, rfl, rfl, rfl, rfl, rfl, ?_, ?_⟩ <;> (unfold RV.at?; by_cases h : i < s.size <;> simp [h])
+  · simp only [GenTie.rvPushIndex, GenTie.rvPushSize, GenTie.rvPushRIndex, GenTie.rvPushRSize, GenTie.rvEmplaceIndex,
+      GenTie.rvEmplaceSize, GenTie.rvPopCond, GenTie.rvPopSize, GenTie.rvClearSize, GenTie.rvResizeSize, GenTie.rvIndex,
+      GenTie.rvFillBound, GenTie.rvFillIndex]
+    refine ⟨rfl, rfl, rfl, ?_, rfl, rfl, rfl, rfl, trivial⟩
+    unfold RV.popBack
+    by_cases h : s.size = 0 <;> simp [h]
+  · simp only [GenTie.rvBeginOff, GenTie.rvBeginOffC, GenTie.rvCbeginOff, GenTie.rvEndOff, GenTie.rvEndOffC, GenTie.rvCendOff,
+      GenTie.rvRbeginOff, GenTie.rvRbeginOffC, GenTie.rvCrbeginOff, GenTie.rvRendOff, GenTie.rvRendOffC, GenTie.rvCrendOff,
+      GenTie.rvHashEnd, GenTie.rvSize, GenTie.rvEmpty, GenTie.rvCapacity, GenTie.rvMaxSize, List.drop_zero, Nat.sub_zero]
+    all_goals repeat' apply And.intro
+    all_goals first | rfl | trivial
+  · exact ⟨GenTie.rvIndexCheck n s.size i, GenTie.rvIndexCheckC n s.size i, GenTie.rvFrontCheck n s.size,
+      GenTie.rvFrontCheckC n s.size, GenTie.rvBackCheck n s.size, GenTie.rvBackCheckC n s.size, GenTie.rvPushCheck n s.size,
+      GenTie.rvPushRCheck n s.size, GenTie.rvEmplaceCheck n s.size, GenTie.rvResizeCheck n s.size i⟩
+
+/-- with `rv_runs_refine`: along every history the generated end offset never exceeds the generated capacity -/
+theorem gen_rv_runs_capacity {n : Nat} (d : α) (ops : List (RV.Op α)) :
+    Gen.rvEndOff n (RV.run n (RV.empty n d) ops).size ≤ Gen.rvCapacity n (RV.run n (RV.empty n d) ops).size := by
+  rw [GenTie.rvEndOff, GenTie.rvCapacity]
+  exact (rv_runs_capacity (n := n) d ops).1.le
+
+example : Gen.rvBack 4 3 = 2 ∧ Gen.rvAtThrow 4 3 3 = true ∧ Gen.rvAtThrow 4 3 2 = false ∧ Gen.rvPushIndex 4 3 = 3 ∧
+    Gen.rvPushSize 4 3 = 4 ∧ Gen.rvPopCond 4 0 = false ∧ Gen.rvPopCond 4 1 = true ∧ Gen.rvEndOff 4 3 = 3 ∧ Gen.rvPushCheck 4 4 = false := by
+  decide
+
+end Generated
 
 end DV.C11
